@@ -232,7 +232,8 @@ pub fn explore(
                     program: p.name.clone(),
                     spec: p.spec.clone(),
                     writer_preference,
-                    property: "C11".into(),
+                    // C09 also promises that no read blocks forever
+                    property: if p.panic_property.contains("C09") { "C11,C09".into() } else { "C11".into() },
                     signature: sig,
                     detail: d.clone(),
                     schedule: choices.clone(),
